@@ -23,9 +23,9 @@ const (
 )
 
 const (
-	NSMain = "urn:verif:main"
-	NSExt  = "urn:verif:ext"
-	NSIds  = "urn:verif:ids"
+	NSMain  = "urn:verif:main"
+	NSExt   = "urn:verif:ext"
+	NSIds   = "urn:verif:ids"
 	ModMain = "verif-main"
 	ModExt  = "verif-ext"
 	ModIds  = "verif-ids"
@@ -75,16 +75,16 @@ func (n *Node) SchemaPath() []string {
 
 type nodeOpt func(*Node)
 
-func ext() nodeOpt                { return func(n *Node) { n.Module, n.NS = ModExt, NSExt } }
-func def(v string) nodeOpt        { return func(n *Node) { n.Default = v } }
-func state() nodeOpt              { return func(n *Node) { n.State = true } }
-func presence() nodeOpt           { return func(n *Node) { n.Presence = true } }
+func ext() nodeOpt                 { return func(n *Node) { n.Module, n.NS = ModExt, NSExt } }
+func def(v string) nodeOpt         { return func(n *Node) { n.Default = v } }
+func state() nodeOpt               { return func(n *Node) { n.State = true } }
+func presence() nodeOpt            { return func(n *Node) { n.Presence = true } }
 func member(ch, cs string) nodeOpt { return func(n *Node) { n.Choice, n.Case = ch, cs } }
-func frac(d int) nodeOpt          { return func(n *Node) { n.FracDigits = d } }
-func enums(e ...string) nodeOpt   { return func(n *Node) { n.Enums = e } }
-func bits(e ...string) nodeOpt    { return func(n *Node) { n.Bits = e } }
-func union(t ...string) nodeOpt   { return func(n *Node) { n.UnionTypes = t } }
-func lrefTo(t string) nodeOpt     { return func(n *Node) { n.LeafrefTo = t } }
+func frac(d int) nodeOpt           { return func(n *Node) { n.FracDigits = d } }
+func enums(e ...string) nodeOpt    { return func(n *Node) { n.Enums = e } }
+func bits(e ...string) nodeOpt     { return func(n *Node) { n.Bits = e } }
+func union(t ...string) nodeOpt    { return func(n *Node) { n.UnionTypes = t } }
+func lrefTo(t string) nodeOpt      { return func(n *Node) { n.LeafrefTo = t } }
 
 func mk(kind Kind, name, typ string, opts []nodeOpt, children []*Node) *Node {
 	n := &Node{Name: name, Kind: kind, Type: typ, Module: ModMain, NS: NSMain, Children: children}
